@@ -5,6 +5,7 @@ cd "$(dirname "$0")"
 export CARGO_NET_OFFLINE=true
 export CARGO_TARGET_DIR="$(pwd)/target"
 mkdir -p work/bin work/log evidence replays
+python3 tools/mkdict.py /repo work/dict.json || true
 cd harness
 cargo build -q -p dv_gen || exit 1
 "$CARGO_TARGET_DIR/debug/dv_gen" "${VERIF_SEED:-1}" generated/src/types.rs || exit 1
